@@ -33,6 +33,9 @@ rule("C07.k", "an index of one space (variable / mapping row / time step / restr
 rule("C08.f", "a sum of step lengths over the steps of selected mapping rows first reduces the rows to distinct steps (rows are not "
               "steps: two variables per step would count every step twice)", floor=1, props=["C08", "C02"])
 
+rule("C08.g", "a take volume is prorated by (covered step lengths) / (calendar length of the whole period): the denominator comes from "
+              "the period's own start and end, never from the grid (which only knows the part inside the horizon)", floor=1)
+
 VAR, MAP, ROW, TIME, TIMER, VARD = "VAR", "MAP", "ROW", "TIME", "TIMEr", "VARd"
 # what may index what
 OK_INDEX = {
@@ -367,7 +370,7 @@ def _rule_for(fn) -> str:
     return "C07.k"
 
 
-@analysis("spaces", ["C15.a", "C15.f", "C13.b", "C04.a", "C07.k", "C08.f"])
+@analysis("spaces", ["C15.a", "C15.f", "C13.b", "C04.a", "C07.k", "C08.f", "C08.g"])
 def run(ctx):
     p = ctx.p
     counts = {}
@@ -423,6 +426,31 @@ def run(ctx):
                            "step lengths are summed over the time_step entries of the selected mapping *rows*; with two variables per step "
                            "(buy/sell spread) or several rows per variable every covered step is counted once per row, so the prorated "
                            "take volume is a multiple of the documented one", node=n)
+                    # ---- C08.g: what is the covered duration divided by?
+                    top = n
+                    while isinstance(p.parent(top), (ast.BinOp, ast.UnaryOp)):
+                        top = p.parent(top)
+                    divs = []            # divisions on the multiplicative spine of the product (not inside a denominator)
+                    todo = [top]
+                    while todo:
+                        x = todo.pop()
+                        if isinstance(x, ast.BinOp) and isinstance(x.op, ast.Mult):
+                            todo += [x.left, x.right]
+                        elif isinstance(x, ast.BinOp) and isinstance(x.op, ast.Div):
+                            if not any(y is n for y in au.walk_local(x.right)):
+                                divs.append(x)
+                            todo.append(x.left)
+                    org_v = ctx.origins(fn, values_only=True)
+                    for d in divs:
+                        nodes = org_v.nodes(d.right, st)
+                        grid = [x for x in nodes if isinstance(x, ast.Attribute) and x.attr in TIME_CARRIERS + ("T", "restricted")]
+                        span = any(isinstance(x, ast.BinOp) and isinstance(x.op, ast.Sub) for x in nodes)
+                        ctx.ob("C08.g", fn, "prorated by / %s" % au.short(d.right, 60), (not grid) and span if (grid or span) else None,
+                               "the volume of a take period is divided by %s, a quantity taken from the grid: the grid only contains the part of "
+                               "the period inside the horizon, so a period that sticks out of the horizon keeps its full volume instead of the "
+                               "share of the covered duration (max_take 100 over [Jan 6, Jan 16) on a horizon ending Jan 11: 100 instead of 50)"
+                               % au.short(grid[0], 40) if grid else "the origin of the denominator was not recognised", node=d,
+                               ok_detail="calendar length of the period")
     ctx.require(n_f >= 1, "the proration sum over covered steps (define_restr) was not found")
 
     # ---------------------------------------------------------------- anchors that must not pass vacuously
